@@ -34,6 +34,17 @@
 (* execute_job message.                                                    *)
 (* Payload ids: stored payloads are positive ids, CallerPayload is what a  *)
 (* caller supplies (pg = 1), pg = 2 is a caller payload that is not JSON.  *)
+(* A payload is a JSON document {"hexPayload": "<hex>"}; nothing restricts *)
+(* how <hex> is SPELLED, and x/evm decodes it with go-ethereum's           *)
+(* common.FromHex: an optional 0x / 0X prefix is dropped, an odd number of *)
+(* digits is left padded with one 0, the case of the digits is irrelevant, *)
+(* the empty string is the empty payload.  The spelling `sp` of the stored *)
+(* payload (Create) resp. of the caller's payload (Execute through a       *)
+(* transaction; the wasm bindings hex-encode raw bytes themselves) is a    *)
+(* dimension of the model; Den(p, sp) is the byte string the spelling      *)
+(* DENOTES: p for the bare / prefixed / upper-case spellings of payload p, *)
+(* OddOf(p) for the odd spelling (first digit dropped => other bytes),     *)
+(* EmptyBytes for the empty spelling.                                      *)
 (***************************************************************************)
 EXTENDS Integers, Sequences, FiniteSets, TLC
 
@@ -42,9 +53,10 @@ CONSTANTS Accounts,     \* account callers (positive integers)
           JobIds,       \* valid job ids (positive integers); 0 is an id that fails validation
           Chains,       \* subset of 1..5 (see above)
           Targets,      \* contract addresses a job can call
-          Payloads      \* stored payload ids
+          Payloads,     \* stored payload ids
+          Spellings     \* subset of {"bare", "0x", "0X", "odd", "upper", "empty"}
 
-VARIABLES jobs,         \* job store: id -> [owner, chain, target, payload, mod, mev]
+VARIABLES jobs,         \* job store: id -> [owner, chain, target, payload, sp, den, mod, mev]
           vq,           \* chains whose pending valset has been put into the turnstone queue
           added,        \* messages the last request added to the turnstone queues (in queue order)
           res,          \* result class of the last request
@@ -64,9 +76,16 @@ MevVal(c)   == c = 1              \* a validator with the MEV trait exists
 Fees(c)     == c \in {1, 2, 4}    \* validators have relayer fee records
 Unsynced(c) == c = 1              \* published valset differs from the current one (active chain)
 
-Job(o, c, t, p, m, v) == [owner |-> o, chain |-> c, target |-> t, payload |-> p, mod |-> m, mev |-> v]
-Rec(a, who, as, via, id, c, t, p, m, v, pg) ==
-  [act |-> a, who |-> who, as |-> as, via |-> via, id |-> id, chain |-> c, target |-> t, payload |-> p, mod |-> m, mev |-> v, pg |-> pg]
+\* byte strings: payload ids denote themselves, the odd spelling of p denotes OddOf(p), the empty spelling EmptyBytes
+OddOf(p) == 100 + p
+EmptyBytes == 1000
+Den(p, sp) == CASE sp = "empty" -> EmptyBytes [] sp = "odd" -> OddOf(p) [] OTHER -> p
+\* the empty spelling carries no payload id
+NormP(p, sp) == IF sp = "empty" THEN 0 ELSE p
+\* den: the bytes the STORED document denotes (in the trace: decoded from the stored job record itself)
+Job(o, c, t, p, sp, m, v) == [owner |-> o, chain |-> c, target |-> t, payload |-> NormP(p, sp), sp |-> sp, den |-> Den(p, sp), mod |-> m, mev |-> v]
+Rec(a, who, as, via, id, c, t, p, sp, m, v, pg) ==
+  [act |-> a, who |-> who, as |-> as, via |-> via, id |-> id, chain |-> c, target |-> t, payload |-> p, sp |-> sp, mod |-> m, mev |-> v, pg |-> pg]
 Ext(f, k, v) == [x \in DOMAIN f \cup {k} |-> IF x = k THEN v ELSE f[x]]
 Done(r, w) == res' = w /\ last' = r /\ nops' = nops + 1
 
@@ -78,7 +97,7 @@ Init ==
   /\ jobs = [i \in {} |-> 0]
   /\ vq = {}
   /\ added = <<>>
-  /\ res = "init" /\ last = Rec("Init", 0, 0, "", 0, 0, 0, 0, FALSE, FALSE, 0) /\ nops = 0
+  /\ res = "init" /\ last = Rec("Init", 0, 0, "", 0, 0, 0, 0, "", FALSE, FALSE, 0) /\ nops = 0
 
 Invalid(id, c, v) == id = BadId \/ (v /\ ~MevName(c))
 
@@ -93,13 +112,14 @@ CreateWhy(who, as, via, id, c, v) ==
        ELSE IF id \in DOMAIN jobs THEN "exists"
        ELSE "ok"
 
-CreateJobs(w, who, id, c, t, p, m, v) == IF w = "ok" THEN Ext(jobs, id, Job(who, c, t, p, m, v)) ELSE jobs
+\* the spelling of the stored payload is never looked at when a job is created (VerifyJob only parses the JSON)
+CreateJobs(w, who, id, c, t, p, sp, m, v) == IF w = "ok" THEN Ext(jobs, id, Job(who, c, t, p, sp, m, v)) ELSE jobs
 
-Create(who, as, via, id, c, t, p, m, v) ==
+Create(who, as, via, id, c, t, p, sp, m, v) ==
   LET w == CreateWhy(who, as, via, id, c, v) IN
-  /\ jobs' = CreateJobs(w, who, id, c, t, p, m, v)
+  /\ jobs' = CreateJobs(w, who, id, c, t, p, sp, m, v)
   /\ vq' = vq /\ added' = <<>>
-  /\ Done(Rec("Create", who, as, via, id, c, t, p, m, v, 0), w)
+  /\ Done(Rec("Create", who, as, via, id, c, t, p, sp, m, v, 0), w)
 
 ExecWhy(who, as, via, id, pg) ==
   IF via = "tx" /\ who # as THEN "err"
@@ -114,29 +134,33 @@ ExecWhy(who, as, via, id, pg) ==
 
 \* the valset update is issued just in time with the first logic call of a chain whose published valset is stale
 Jit(w, id) == w = "ok" /\ Unsynced(jobs[id].chain) /\ jobs[id].chain \notin vq
-ExecAdded(w, who, id, pg) ==
+\* sp: the spelling of the caller's payload (pg = 1); the call carries the bytes the used document DENOTES
+ExecAdded(w, who, id, pg, sp) ==
   IF w # "ok" THEN <<>>
   ELSE LET j == jobs[id]
-           body == IF j.mod /\ pg = 1 THEN CallerPayload ELSE j.payload
+           body == IF j.mod /\ pg = 1 THEN Den(CallerPayload, sp) ELSE j.den
            call == Slc(j.chain, j.target, body, who) IN
        IF Jit(w, id) THEN <<Uvs(j.chain), call>> ELSE <<call>>
 
-Execute(who, as, via, id, pg) ==
+Execute(who, as, via, id, pg, sp) ==
   LET w == ExecWhy(who, as, via, id, pg) IN
-  /\ added' = ExecAdded(w, who, id, pg)
+  /\ added' = ExecAdded(w, who, id, pg, sp)
   /\ vq' = IF Jit(w, id) THEN vq \cup {jobs[id].chain} ELSE vq
   /\ jobs' = jobs
-  /\ Done(Rec("Execute", who, as, via, id, 0, 0, 0, FALSE, FALSE, pg), w)
+  /\ Done(Rec("Execute", who, as, via, id, 0, 0, 0, sp, FALSE, FALSE, pg), w)
 
 Vias(who) == IF who \in Accounts THEN {"tx"} ELSE {"wasm", "legacy"}
 
+\* spellings a request can use for the caller's payload: any in a transaction (pg = 1), the bare one otherwise
+ExecSp(via, pg) == IF via = "tx" /\ pg = 1 THEN Spellings ELSE {"bare"}
+
 Next ==
   \E who \in Callers, as \in Callers, id \in JobIds \cup {BadId} :
-     \/ \E c \in Chains, t \in Targets, p \in Payloads, m \in BOOLEAN, v \in BOOLEAN :
-           Create(who, IF who \in Contracts THEN who ELSE as, IF who \in Accounts THEN "tx" ELSE "wasm", id, c, t, p, m, v)
-     \/ \E via \in Vias(who), pg \in 0..2 :
+     \/ \E c \in Chains, t \in Targets, p \in Payloads, sp \in Spellings, m \in BOOLEAN, v \in BOOLEAN :
+           Create(who, IF who \in Contracts THEN who ELSE as, IF who \in Accounts THEN "tx" ELSE "wasm", id, c, t, p, sp, m, v)
+     \/ \E via \in Vias(who), pg \in 0..2 : \E sp \in ExecSp(via, pg) :
            /\ (via # "tx" => pg # 2)
-           /\ Execute(who, IF via = "legacy" THEN who ELSE as, via, id, pg)
+           /\ Execute(who, IF via = "legacy" THEN who ELSE as, via, id, pg, sp)
 
 Spec == Init /\ [][Next]_vars
 
@@ -152,7 +176,8 @@ Upds(s)  == {i \in DOMAIN s : s[i].type = "valset"}
 TypeOK ==
   /\ DOMAIN jobs \subseteq JobIds
   /\ \A i \in DOMAIN jobs : /\ jobs[i].owner \in Callers /\ jobs[i].chain \in Chains
-                            /\ jobs[i].target \in Targets /\ jobs[i].payload \in Payloads
+                            /\ jobs[i].target \in Targets /\ jobs[i].payload \in Payloads \cup {0}
+                            /\ jobs[i].sp \in Spellings /\ jobs[i].den = Den(jobs[i].payload, jobs[i].sp)
                             /\ (jobs[i].mev => MevName(jobs[i].chain))
   /\ vq \subseteq Chains
 
@@ -163,7 +188,7 @@ JobsImmutable == \A i \in DOMAIN jobs : i \in DOMAIN jobs' /\ jobs'[i] = jobs[i]
 IdUnique ==
   /\ \A i \in DOMAIN jobs' \ DOMAIN jobs :
         /\ Ok /\ A.act = "Create" /\ i = A.id /\ i # BadId
-        /\ jobs'[i] = Job(A.who, A.chain, A.target, A.payload, A.mod, A.mev)
+        /\ jobs'[i] = Job(A.who, A.chain, A.target, A.payload, A.sp, A.mod, A.mev)
         /\ (A.via = "tx" => A.who = A.as)
   /\ (Ok /\ A.act = "Create") => (A.id \notin DOMAIN jobs /\ A.id \in DOMAIN jobs')
   /\ Cardinality(DOMAIN jobs' \ DOMAIN jobs) <= 1
@@ -172,12 +197,13 @@ ExactlyOneCall == (Ok /\ A.act = "Execute") =>
   /\ A.id \in DOMAIN jobs
   /\ Cardinality(Calls(added')) = 1 /\ Cardinality(Upds(added')) <= 1
   /\ \A m \in Msgs(added') : m.type \in {"slc", "valset"} /\ m.chain = jobs[A.id].chain
-\* it calls the job's contract with the stored payload, or the caller's payload iff the job is modifiable
+\* it calls the job's contract with the bytes the stored payload denotes, or those the caller's payload denotes iff
+\* the job is modifiable - however the hex is spelled
 CallIsStoredCall == (Ok /\ A.act = "Execute" /\ A.id \in DOMAIN jobs) =>
   LET j == jobs[A.id] IN
   /\ (A.pg # 0 => j.mod)
   /\ \A i \in Calls(added') : /\ added'[i].target = j.target
-                              /\ added'[i].body = IF j.mod /\ A.pg # 0 THEN CallerPayload ELSE j.payload
+                              /\ added'[i].body = IF j.mod /\ A.pg # 0 THEN Den(CallerPayload, A.sp) ELSE j.den
 \* followed by the left padded address of the requester (never the owner's, never the `as`/sender field's)
 CallerAppended == (Ok /\ A.act = "Execute") =>
   /\ \A i \in Calls(added') : added'[i].sfx = A.who
